@@ -32,7 +32,7 @@ func ParseDate(value string) (Date, error) {
 	var err error
 	value = strings.TrimPrefix(value, "@")
 	for _, l := range dateLayouts {
-		if t, err = time.Parse(l, value); err == nil {
+		if t, err = parseInFixedZone(l, value); err == nil {
 			return Date{t, layout(l)}, nil
 		}
 	}
@@ -167,7 +167,7 @@ func (d Date) Add(input Quantity) (Date, error) {
 
 	// Reformat to truncate date to initial precision. This causes the addition result
 	// to round down to the highest precision value.
-	result, err = time.Parse(string(d.l), result.Format(string(d.l)))
+	result, err = parseInFixedZone(string(d.l), result.Format(string(d.l)))
 	if err != nil {
 		return Date{}, err
 	}
